@@ -349,6 +349,10 @@ def hLine (ws : List String) : String := Id.run do
   let evs := (get "ev").splitOn ";"
   let st := evs.foldl (hEvent e) st0
   let mut issues := st.issues
+  -- C09: the caller contract of `get_unchecked` (only entries observed as published)
+  match (get "unpub").toNat? with
+  | some k => issues := issues ++ [s!"ORACLE C09 the worker called get_unchecked({k}) although no writer had reached the publishing store of entry {k}: its value and columns are read without a happens-before edge from their initialisation"]
+  | none => pure ()
   -- C07: quiescent snapshot = from-scratch result
   if st.lastSnap ≠ "" then
     let parts := st.lastSnap.splitOn "/"
